@@ -121,6 +121,16 @@ def classify_bool(e):
                     isinstance(y, tuple) and y[0] == "call" and y[1] == "len" and y[3]:
                 cls = ("AXISLEN", obj(x[3][0]), strip(x[3][1]), obj(y[3][0]))
                 return cls, (bad if neq else not bad)
+        # n == 0 / n != 0 on a component of dim()/shape() of x  (pearson: `!(n == 0 || m == 0)`)
+        for x, y in ((a, b), (b, a)):
+            if isinstance(y, tuple) and y[0] == "const" and y[2] == 0:
+                d = x
+                while isinstance(d, tuple) and d[0] in ("field",):
+                    d = strip(d[1])
+                if isinstance(d, tuple) and d[0] == "call" and d[1] in ("dim", "nrows", "ncols", "shape") and d is not x:
+                    return ("DIM-EMPTY", obj(d[3][0]), fmt(x)), (bad if not neq else not bad)
+                if isinstance(x, tuple) and x[0] == "call" and x[1] in ("nrows", "ncols") and x[3]:
+                    return ("DIM-EMPTY", obj(x[3][0]), fmt(x)), (bad if not neq else not bad)
         # raw shape equality
         return ("OTHER", e), bad
     if isinstance(e, tuple) and e[0] == "call" and e[3]:
